@@ -844,4 +844,430 @@ Section Facts.
     rewrite G. eexists. split; [reflexivity|]. simpl. auto.
   Qed.
 
+  (* ------------------------------------------------------------------ completeness at quiescence *)
+  Definition failed_task (s : st V) (t : tid) : Prop :=
+    deps_stored (results s) t /\ c_sem C t (results s) = Raise.
+
+  Lemma failed_task_mono : forall (s s' : st V) e t, Inv s -> step0 C s e = Some s' ->
+    failed_task s t -> failed_task s' t.
+  Proof.
+    intros s s' e t I H [Hd Hr]. assert (Hm := results_mono_step0 _ _ _ I H). split.
+    - eapply deps_stored_mono; eauto.
+    - rewrite (sem_stable (results s) (results s')); auto.
+  Qed.
+
+  Lemma stored_mono_step0 : forall (s s' : st V) e t, Inv s -> step0 C s e = Some s' ->
+    results s t <> None -> results s' t <> None.
+  Proof.
+    intros s s' e t I H Hr. destruct (results s t) eqn:E; [|congruence].
+    rewrite (results_mono_step0 _ _ _ I H _ _ E). discriminate.
+  Qed.
+
+  (* what a step can add to a worker's bookkeeping *)
+  Lemma handled_step : forall (s s' : st V) e w t, step0 C s e = Some s' ->
+    In t (w_handled (ws s' w)) ->
+    In t (w_handled (ws s w)) \/
+    (e = ECanLoad w t true \/ e = ELock w t false \/ (exists v, e = EDump w t v) \/ e = ERaise w t).
+  Proof.
+    intros s s' e w t H Hin. destruct e; break_step H; norm; simpl in *; auto.
+    all: try (casew2 w w0); simpl in *; auto.
+    all: try solve [destruct b; simpl in *; auto; destruct Hin as [X|X]; subst; auto].
+    all: try solve [destruct Hin as [X|X]; subst; eauto 6].
+  Qed.
+
+  Lemma handled_kept : forall (s s' : st V) e w t, step0 C s e = Some s' ->
+    In t (w_handled (ws s w)) -> In t (w_handled (ws s' w)).
+  Proof.
+    intros s s' e w t H Hin. destruct e; break_step H; norm; simpl in *; auto.
+    all: try (casew2 w w0); simpl in *; auto.
+    all: try solve [destruct b; simpl in *; auto].
+  Qed.
+
+  Lemma scan_step : forall (s s' : st V) e w d k, step0 C s e = Some s' ->
+    In (d, k) (w_scan (ws s' w)) ->
+    (In (d, k) (w_scan (ws s w)) /\ w_last (ws s' w) = w_last (ws s w)) \/
+    (e = ECanLoad w d false /\ k = now s /\ w_last (ws s' w) = w_last (ws s w)).
+  Proof.
+    intros s s' e w d k H Hin. destruct e; break_step H; norm; simpl in *; auto.
+    all: try (casew2 w w0); simpl in *; auto; try contradiction.
+    all: try solve [destruct b; simpl in *; auto; try contradiction; destruct Hin as [X|X]; [inversion X; subst; auto | auto]].
+    all: destruct Hin as [X|X]; [inversion X; subst; auto | auto].
+  Qed.
+
+  Lemma last_step : forall (s s' : st V) e w, step0 C s e = Some s' ->
+    w_last (ws s' w) = w_last (ws s w) \/ w_last (ws s' w) = now s.
+  Proof.
+    intros s s' e w H. destruct e; break_step H; norm; simpl in *; auto.
+    all: try (casew2 w w0); simpl in *; auto.
+    all: try solve [destruct b; simpl in *; auto].
+  Qed.
+
+  Lemma now_step0 : forall (s s' : st V) e, step0 C s e = Some s' -> now s' = now s.
+  Proof.
+    intros s s' e H. destruct e; break_step H; norm; simpl in *; auto.
+    all: try solve [destruct b; simpl in *; auto].
+  Qed.
+
+  Lemma stored_at_step : forall (s s' : st V) e d, step0 C s e = Some s' ->
+    stored_at s' d = stored_at s d \/ (exists w v, e = EDump w d v /\ stored_at s' d = now s).
+  Proof.
+    intros s s' e d H. destruct e; break_step H; norm; simpl in *; auto.
+    all: try solve [destruct b; simpl in *; auto].
+    unfold upd. destruct (Pos.eqb d t0) eqn:E; auto. apply Pos.eqb_eq in E; subst. right. eauto.
+  Qed.
+
+  Section Complete.
+    Variable F : wid -> bool.    (* the workers of this execute: fresh when it begins *)
+    Variable t0 : nat.            (* ghost time at which it begins *)
+
+    (* no stop request, no crash; a function may raise only if --keep-going is in force *)
+    Definition okev (e : ev V) : bool :=
+      match e with EInterrupt _ | ECrash _ => false | ERaise _ _ => c_keep_going C | _ => true end.
+
+    Record InvC (s : st V) : Prop := {
+      K_failed : forall t, locks s t = LFailed -> failed_task s t;
+      K_held : forall t w, locks s t = LHeld w -> F w = true /\ holding (pcw s w) = Some t;
+      K_live : forall w, F w = true -> (forall t, pcw s w <> PUnwind t) /\ pcw s w <> PExiting /\ pcw s w <> PDead;
+      K_raised : forall w t, pcw s w = PRaised t -> failed_task s t /\ c_keep_going C = true;
+      K_handled : forall w t, F w = true -> In t (w_handled (ws s w)) ->
+                    results s t <> None \/ (exists w', locks s t = LHeld w') \/ failed_task s t;
+      K_scan : forall w d k, F w = true -> In (d, k) (w_scan (ws s w)) ->
+                    w_last (ws s w) <= k /\ k < now s /\ t0 <= k /\ (results s d <> None -> k < stored_at s d);
+      K_stored : forall d, results s d <> None -> stored_at s d < now s;
+      K_dumper : forall d, results s d <> None -> t0 <= stored_at s d ->
+                    exists w, F w = true /\ stored_at s d <= w_last (ws s w) /\ w_handled (ws s w) <> [];
+      K_last : forall w, F w = true -> w_last (ws s w) < now s;
+      K_now : t0 <= now s;
+      K_done : forall w c, F w = true -> pcw s w = PDone c -> may_leave C (ws s w) = true;
+      K_nonF : forall w, F w = false -> live (pcw s w) = false
+    }.
+
+    Lemma actor_is_F : forall (s s' : st V) e w, InvC s -> step0 C s e = Some s' -> actor e = Some w -> F w = true.
+    Proof.
+      intros s s' e w K H Ha. destruct (F w) eqn:Ef; auto. exfalso.
+      assert (Hl := K_nonF _ K w Ef).
+      assert (X : step C s e = Some (tick s')) by (unfold step; rewrite H; reflexivity).
+      exact (dead_is_silent _ _ _ _ Hl X Ha).
+    Qed.
+
+    Lemma K_failed_step : forall (s s' : st V) e, Inv s -> InvC s -> okev e = true -> step0 C s e = Some s' ->
+      forall t, locks s' t = LFailed -> failed_task s' t.
+    Proof.
+      intros s s' e I K Q H t Hl.
+      assert (Hm : forall t, failed_task s t -> failed_task s' t) by (intros; eapply failed_task_mono; eauto).
+      destruct e; try discriminate Q; break_step H; norm; simpl in *.
+      all: try solve [apply Hm; eapply K_failed; eauto].
+      all: try solve [destruct b; apply Hm; eapply K_failed; eauto].
+      all: unfold failed_task in *; simpl in *.
+      all: try solve [unfold upd in Hl; match type of Hl with context [Pos.eqb ?a ?b] => destruct (Pos.eqb a b) eqn:Et end;
+                      try discriminate; eapply K_failed; eauto].
+      - unfold upd in Hl. destruct (Pos.eqb t t2) eqn:Et; [|eapply K_failed; eauto].
+        apply Pos.eqb_eq in Et; subst. apply (K_raised _ K w). auto.
+      - discriminate.
+      - destruct (locks s t); discriminate.
+    Qed.
+
+    Lemma K_held_step : forall (s s' : st V) e, Inv s -> InvC s -> okev e = true -> step0 C s e = Some s' ->
+      forall t w, locks s' t = LHeld w -> F w = true /\ holding (pcw s' w) = Some t.
+    Proof.
+      intros s s' e I K Q H.
+      assert (HF : forall w, actor e = Some w -> F w = true) by (intros; eapply actor_is_F; eauto).
+      destruct e; try discriminate Q; break_step H; norm; simpl in *; intros tq wq Hq.
+      all: try specialize (HF _ eq_refl).
+      all: try (casew2 wq w).
+      all: try solve [eapply K_held; eauto].
+      all: fwd I.
+      all: try solve [destruct (K_held _ K _ _ Hq) as [X Y]; split; auto; rewrite Heqp in Y; simpl in Y; inversion Y; subst;
+                      try destruct b; simpl; auto].
+      all: try solve [unfold upd in Hq; match type of Hq with context [Pos.eqb ?a ?b] => destruct (Pos.eqb a b) eqn:Et end; norm;
+                      try discriminate; try (inversion Hq; subst; try contradiction; simpl; auto; fail);
+                      destruct (K_held _ K _ _ Hq) as [X Y]; try (split; auto; fail);
+                      rewrite Heqp in Y; simpl in Y; inversion Y; subst; contradiction].
+      - discriminate.
+      - destruct (locks s tq) eqn:El; try discriminate. inversion Hq; subst. eapply K_held; eauto.
+    Qed.
+
+    Lemma K_live_step : forall (s s' : st V) e, Inv s -> InvC s -> okev e = true -> step0 C s e = Some s' ->
+      forall w, F w = true -> (forall t, pcw s' w <> PUnwind t) /\ pcw s' w <> PExiting /\ pcw s' w <> PDead.
+    Proof.
+      intros s s' e I K Q H.
+      destruct e; try discriminate Q; break_step H; norm; simpl in *; intros wq Hq.
+      all: try (casew2 wq w).
+      all: try solve [eapply K_live; eauto].
+      all: try solve [destruct b; simpl; try (eapply K_live; eauto; fail); repeat split; try intros ?; discriminate].
+      all: try solve [simpl; repeat split; try intros ?; discriminate].
+      - destruct (K_raised _ K _ _ Heqp) as [_ Hk]. unfold after_failure. rewrite Hk. simpl. repeat split; try intros ?; discriminate.
+      - exfalso. destruct (K_live _ K w Hq) as [X _]. apply (X t1). auto.
+      - destruct (K_raised _ K _ _ Heqp) as [_ Hk]. unfold after_failure. rewrite Hk. simpl. repeat split; try intros ?; discriminate.
+    Qed.
+
+    Lemma K_raised_step : forall (s s' : st V) e, Inv s -> InvC s -> okev e = true -> step0 C s e = Some s' ->
+      forall w t, pcw s' w = PRaised t -> failed_task s' t /\ c_keep_going C = true.
+    Proof.
+      intros s s' e I K Q H.
+      assert (Hm : forall t, failed_task s t -> failed_task s' t) by (intros; eapply failed_task_mono; eauto).
+      destruct e; try discriminate Q; break_step H; norm; simpl in *; intros wq tq Hq.
+      all: try (casew2 wq w).
+      all: try solve [destruct (K_raised _ K _ _ Hq); split; auto].
+      all: try solve [simpl in Hq; discriminate].
+      all: try solve [destruct b; simpl in Hq; try discriminate; rewrite Heqp in Hq; discriminate].
+      all: unfold failed_task in *; simpl in *.
+      - inversion Hq; subst. repeat split; auto. exact (proj1 (forallb_stored _ _) H0).
+      - inversion Hq; subst. repeat split; auto. exact (proj1 (forallb_stored _ _) H0).
+      - unfold after_failure in Hq. destruct (c_keep_going C); discriminate.
+      - unfold after_failure in Hq. destruct (c_keep_going C); discriminate.
+    Qed.
+
+
+    Lemma held_release : forall (s s' : st V) e t w', Inv s -> InvC s -> okev e = true -> step0 C s e = Some s' ->
+      locks s t = LHeld w' -> locks s' t = LHeld w' \/ results s' t <> None \/ failed_task s' t.
+    Proof.
+      intros s s' e t w' I K Q H Hl.
+      destruct e; try discriminate Q; break_step H; norm; simpl in *; auto.
+      all: try solve [destruct b; auto].
+      all: unfold failed_task; simpl.
+      all: fwd I.
+      all: try solve [unfold upd; destruct (Pos.eqb t t2) eqn:Et; auto; apply Pos.eqb_eq in Et; subst;
+                      right; left; eapply I_done; eauto].
+      - left. unfold upd. destruct (Pos.eqb t t1) eqn:Et; auto. apply Pos.eqb_eq in Et; subst. congruence.
+      - unfold upd. destruct (Pos.eqb t t2) eqn:Et; auto. apply Pos.eqb_eq in Et; subst.
+        right. right. apply (K_raised _ K w). auto.
+      - exfalso. assert (Hf : F w = true) by (apply (K_held _ K t2 w); auto).
+        destruct (K_live _ K w Hf) as [X _]. apply (X t2). auto.
+      - unfold upd. destruct (Pos.eqb t t2) eqn:Et; auto. apply Pos.eqb_eq in Et; subst.
+        right. right. apply (K_raised _ K w). auto.
+      - exfalso. destruct (K_held _ K _ _ Hl) as [_ Y]. rewrite forallb_forall in Heqb.
+        assert (Hin : In t (c_tasks C)) by (apply (I_task _ I); congruence).
+        specialize (Heqb t Hin). rewrite Hl in Heqb. apply negb_true_iff in Heqb.
+        rewrite (holding_live _ _ Y) in Heqb. discriminate.
+      - left. now rewrite Hl.
+    Qed.
+
+    Lemma K_handled_step : forall (s s' : st V) e, Inv s -> InvC s -> okev e = true -> step0 C s e = Some s' ->
+      forall w t, F w = true -> In t (w_handled (ws s' w)) ->
+        results s' t <> None \/ (exists w', locks s' t = LHeld w') \/ failed_task s' t.
+    Proof.
+      intros s s' e I K Q H w t Hf Hin.
+      destruct (handled_step _ _ _ _ _ H Hin) as [Hold | Hnew].
+      - destruct (K_handled _ K w t Hf Hold) as [X | [[w' X] | X]].
+        + left. eapply stored_mono_step0; eauto.
+        + destruct (held_release _ _ _ _ _ I K Q H X) as [Y | [Y | Y]]; eauto.
+        + right. right. eapply failed_task_mono; eauto.
+      - destruct Hnew as [X | [X | [[v X] | X]]]; subst e.
+        + left. break_step H; norm; simpl; try (apply stored_true; auto).
+        + break_step H; norm; simpl.
+          * right. left. eauto.
+          * right. right. apply (K_failed _ K). auto.
+        + left. eapply dump_stores; eauto.
+        + right. right. assert (X : step C s (ERaise w t) = Some (tick s')) by (unfold step; rewrite H; reflexivity).
+          apply raise_dooms in X. simpl in X. inversion X; subst.
+          * split; auto.
+          * exfalso. clear - H H0 H1 I. break_step H; norm; simpl in *.
+            all: assert (Hd := proj1 (forallb_stored _ _) H2 _ H0);
+                 apply Hd; apply doomed_unstored; auto; apply (I_sound _ I).
+    Qed.
+
+    Lemma dump_effect : forall (s s' : st V) w d v, step0 C s (EDump w d v) = Some s' ->
+      stored_at s' d = now s /\ w_last (ws s' w) = now s /\ In d (w_handled (ws s' w)).
+    Proof.
+      intros s s' w d v H. break_step H; norm; simpl. rewrite upd_same, updw_same. simpl. auto.
+    Qed.
+
+    Lemma done_new : forall (s s' : st V) e w c, step0 C s e = Some s' -> pcw s' w = PDone c ->
+      (exists c', pcw s w = PDone c' /\ ws s' w = ws s w) \/
+      (pcw s w = PIdle /\ may_leave C (ws s w) = true /\ ws s' w = set_pc (ws s w) (PDone c)) \/
+      pcw s w = PExiting.
+    Proof.
+      intros s s' e w c H Hp. destruct e; break_step H; norm; simpl in *.
+      all: try (casew2 w w0); simpl in *; eauto.
+      all: try solve [destruct b; simpl in *; eauto; try discriminate; rewrite Heqp in Hp; discriminate].
+      all: try discriminate.
+      all: try solve [unfold after_failure in Hp; destruct (c_keep_going C); discriminate].
+      all: try solve [rewrite Heqp in Hp; discriminate].
+      - inversion Hp; subst. right. left. auto.
+    Qed.
+
+    Lemma may_leave_set_pc : forall (x : wst V) p, may_leave C (set_pc x p) = may_leave C x.
+    Proof. reflexivity. Qed.
+
+    Theorem InvC_step : forall (s s' : st V) e, Inv s -> InvC s -> okev e = true -> step C s e = Some s' -> InvC s'.
+    Proof.
+      intros s s' e I K Q H. destruct (step_inv_some _ _ _ H) as [s1 [H1 E]]. subst s'.
+      assert (Hnow := now_step0 _ _ _ H1).
+      constructor; simpl.
+      - exact (K_failed_step s s1 e I K Q H1).
+      - exact (K_held_step s s1 e I K Q H1).
+      - exact (K_live_step s s1 e I K Q H1).
+      - exact (K_raised_step s s1 e I K Q H1).
+      - exact (K_handled_step s s1 e I K Q H1).
+      - (* K_scan *)
+        intros w d k Hf Hin. destruct (scan_step _ _ _ _ _ _ H1 Hin) as [[Hold Hl] | [He [Hk Hl]]].
+        + destruct (K_scan _ K w d k Hf Hold) as [A [B [D G]]]. rewrite Hl. repeat split; auto; try lia.
+          intros Hr. destruct (results s d) eqn:Er.
+          * assert (k < stored_at s d) by (apply G; discriminate).
+            destruct (stored_at_step _ _ _ d H1) as [X | [w' [v' [_ X]]]]; lia.
+          * destruct (results_new _ _ _ H1 _ Hr) as [X | [w' [v' [X _]]]]; [congruence|]. subst e.
+            destruct (dump_effect _ _ _ _ _ H1) as [X _]. lia.
+        + subst e k. rewrite Hl. assert (X := K_last _ K w Hf). assert (Y := K_now _ K). repeat split; try lia.
+          intros Hr. exfalso. break_step H1; norm; simpl in *;
+            match goal with Hs : false = stored _ _ |- _ => symmetry in Hs; apply stored_false in Hs; congruence end.
+      - (* K_stored *)
+        intros d Hr. destruct (results s d) eqn:Er.
+        + assert (stored_at s d < now s) by (apply (K_stored _ K); congruence).
+          destruct (stored_at_step _ _ _ d H1) as [X | [w' [v' [_ X]]]]; lia.
+        + destruct (results_new _ _ _ H1 _ Hr) as [X | [w' [v' [X _]]]]; [congruence|]. subst e.
+          destruct (dump_effect _ _ _ _ _ H1) as [X _]. lia.
+      - (* K_dumper *)
+        intros d Hr Ht.
+        assert (Hcase : (exists w v, e = EDump w d v) \/ (results s d <> None /\ stored_at s1 d = stored_at s d)).
+        { destruct (stored_at_step _ _ _ d H1) as [X | [w' [v' [X _]]]]; eauto.
+          destruct (results_new _ _ _ H1 _ Hr) as [Y | [w' [v' [Y _]]]]; eauto. }
+        destruct Hcase as [[w [v He]] | [Hr0 Hs]].
+        + subst e. destruct (dump_effect _ _ _ _ _ H1) as [A [B D]]. exists w. split.
+          * eapply actor_is_F; eauto.
+          * split; [lia|]. intros X. rewrite X in D. contradiction.
+        + rewrite Hs in *. destruct (K_dumper _ K d Hr0 Ht) as [w [A [B D]]]. exists w. split; auto. split.
+          * assert (X := K_last _ K w A). destruct (last_step _ _ _ w H1); lia.
+          * destruct (w_handled (ws s w)) as [|x l] eqn:El; [congruence|].
+            assert (In x (w_handled (ws s1 w))) by (eapply handled_kept; eauto; rewrite El; left; auto).
+            intros Y. rewrite Y in *. contradiction.
+      - intros w Hf. assert (X := K_last _ K w Hf). destruct (last_step _ _ _ w H1); lia.
+      - assert (X := K_now _ K). lia.
+      - (* K_done *)
+        intros w c Hf Hp. destruct (done_new _ _ _ _ _ H1 Hp) as [[c' [A B]] | [[A [B D]] | A]].
+        + rewrite B. eapply K_done; eauto.
+        + rewrite D. rewrite may_leave_set_pc. auto.
+        + exfalso. destruct (K_live _ K w Hf) as [_ [X _]]. contradiction.
+      - intros w Hf. assert (Hl := K_nonF _ K w Hf). assert (X := dead_stays _ _ _ _ Hl H). simpl in X. rewrite X. auto.
+    Qed.
+
+    Theorem InvC_run : forall tr (s s' : st V), Inv s -> InvC s -> forallb okev tr = true ->
+      run C s tr = Some s' -> InvC s'.
+    Proof.
+      induction tr as [|e tr IH]; simpl; intros s s' I K Q H.
+      - inversion H; subst; auto.
+      - apply andb_true_iff in Q. destruct Q as [Qe Q]. destruct (step C s e) eqn:E; [|discriminate].
+        eapply IH; [eapply Inv_step; eauto | eapply InvC_step; eauto | eauto | eauto].
+    Qed.
+
+    (* the state in which a (new) execute begins: no lock is held, the participating workers are
+       fresh, everybody else has left or is dead *)
+    Definition Restart (s : st V) : Prop :=
+      Inv s /\
+      (forall t, locks s t = LFree \/ (locks s t = LFailed /\ failed_task s t)) /\
+      (forall w, F w = true -> ws s w = fresh_w) /\
+      (forall w, F w = false -> live (pcw s w) = false) /\
+      (forall d, results s d <> None -> stored_at s d < now s) /\
+      t0 = now s /\ 0 < now s.
+
+    Lemma Restart_InvC : forall s, Restart s -> InvC s.
+    Proof.
+      intros s [I [Hl [Hf [Hn [Hs [Ht Hp]]]]]]. constructor.
+      - intros t X. destruct (Hl t) as [Y | [_ Y]]; [congruence | auto].
+      - intros t w X. destruct (Hl t) as [Y | [Y _]]; congruence.
+      - intros w X. rewrite (Hf w X). simpl. repeat split; try intros ?; discriminate.
+      - intros w t X. destruct (F w) eqn:Ef.
+        + rewrite (Hf w Ef) in X. discriminate.
+        + assert (Y := Hn w Ef). rewrite X in Y. discriminate.
+      - intros w t X Y. rewrite (Hf w X) in Y. contradiction.
+      - intros w d k X Y. rewrite (Hf w X) in Y. contradiction.
+      - auto.
+      - intros d X Y. specialize (Hs d X). lia.
+      - intros w X. rewrite (Hf w X). simpl. lia.
+      - lia.
+      - intros w c X Y. rewrite (Hf w X) in Y. discriminate.
+      - auto.
+    Qed.
+
+    (* every participating worker has left, or has not done anything yet *)
+    Definition quiescent (s : st V) : Prop :=
+      forall w, F w = true -> (exists c, pcw s w = PDone c) \/ (pcw s w = PIdle /\ w_handled (ws s w) = []).
+
+    Lemma scanned_In : forall (x : wst V) d, scanned x d = true -> exists k, In (d, k) (w_scan x).
+    Proof.
+      intros x d H. unfold scanned in H. apply existsb_exists in H. destruct H as [[d' k] [Hin E]].
+      simpl in E. apply Pos.eqb_eq in E. subst. eauto.
+    Qed.
+
+    Lemma latest_dep : forall (f : tid -> nat) l,
+      (forall d, In d l -> f d < t0) \/ (exists d, In d l /\ t0 <= f d /\ forall d', In d' l -> f d' <= f d).
+    Proof.
+      intros f. induction l as [|a l IH]; [left; intros d []|].
+      destruct IH as [IH | [d [Hin [Ht Hmax]]]].
+      - destruct (le_lt_dec t0 (f a)) as [Ha | Ha].
+        + right. exists a. split; [left; auto|]. split; auto. intros d' [X | X]; [subst; lia|]. specialize (IH d' X). lia.
+        + left. intros d [X | X]; [subst; auto | auto].
+      - destruct (le_lt_dec (f a) (f d)) as [Ha | Ha].
+        + right. exists d. split; [right; auto|]. split; auto. intros d' [X | X]; [subst; auto | auto].
+        + right. exists a. split; [left; auto|]. split; [lia|]. intros d' [X | X]; [subst; lia|]. specialize (Hmax d' X). lia.
+    Qed.
+
+    (* the heart of completeness: at quiescence a task all of whose dependencies are stored and whose
+       function does not raise has been stored *)
+    Theorem complete_local : forall s : st V, Inv s -> InvC s -> quiescent s ->
+      (exists w c, F w = true /\ pcw s w = PDone c) ->
+      forall t, In t (c_tasks C) -> deps_stored (results s) t -> c_sem C t (results s) <> Raise ->
+      results s t <> None.
+    Proof.
+      intros s I K Hq [w0 [c0 [Hf0 Hp0]]] t Hin Hd Hr Hn.
+      assert (Hnf : ~ failed_task s t) by (intros [_ X]; contradiction).
+      assert (Hfree : locks s t = LFree).
+      { destruct (locks s t) eqn:El; auto.
+        - destruct (K_held _ K _ _ El) as [Hf Hh].
+          destruct (Hq w Hf) as [[c X] | [X _]]; rewrite X in Hh; discriminate.
+        - exfalso. apply Hnf. apply (K_failed _ K). auto. }
+      (* what the exit of a participating worker tells about t *)
+      assert (Hexit : forall w c, F w = true -> pcw s w = PDone c ->
+                exists d k, In d (c_deps C t) /\ In (d, k) (w_scan (ws s w))).
+      { intros w c Hf Hp. assert (Hm := K_done _ K w c Hf Hp). unfold may_leave in Hm.
+        rewrite forallb_forall in Hm. specialize (Hm t Hin). apply orb_true_iff in Hm. destruct Hm as [Hm | Hm].
+        - exfalso. apply mem_In in Hm. destruct (K_handled _ K w t Hf Hm) as [X | [[w' X] | X]]; auto. congruence.
+        - apply existsb_exists in Hm. destruct Hm as [d [Hdin Hsc]]. destruct (scanned_In _ _ Hsc) as [k Hk]. eauto. }
+      destruct (latest_dep (stored_at s) (c_deps C t)) as [Hold | [d [Hdin [Ht Hmax]]]].
+      - destruct (Hexit w0 c0 Hf0 Hp0) as [d [k [Hdin Hk]]].
+        destruct (K_scan _ K w0 d k Hf0 Hk) as [_ [_ [A B]]]. specialize (B (Hd d Hdin)). specialize (Hold d Hdin). lia.
+      - destruct (K_dumper _ K d (Hd d Hdin) Ht) as [w [Hf [Hle Hh]]].
+        destruct (Hq w Hf) as [[c Hp] | [_ X]]; [|contradiction].
+        destruct (Hexit w c Hf Hp) as [d' [k [Hdin' Hk]]].
+        destruct (K_scan _ K w d' k Hf Hk) as [A [_ [_ B]]]. specialize (B (Hd d' Hdin')). specialize (Hmax d' Hdin'). lia.
+    Qed.
+
+    Hypothesis tasks_closed : forall t d, In t (c_tasks C) -> In d (c_deps C t) -> In d (c_tasks C).
+
+    (* C01 (b) / C11 (c): at quiescence exactly the tasks that do not raise and do not depend on one
+       that raises have a result *)
+    Theorem complete : forall s : st V, Inv s -> InvC s -> quiescent s ->
+      (exists w c, F w = true /\ pcw s w = PDone c) ->
+      forall t, In t (c_tasks C) -> (results s t <> None <-> ~ doomed (results s) t).
+    Proof.
+      intros s I K Hq Hw.
+      assert (G : forall n t, rank t < n -> In t (c_tasks C) -> ~ doomed (results s) t -> results s t <> None).
+      { induction n as [|n IH]; intros t Hn Hin Hnd; [lia|].
+        assert (Hd : deps_stored (results s) t).
+        { intros d Hdin. apply IH.
+          - specialize (rank_deps _ _ Hdin). lia.
+          - eapply tasks_closed; eauto.
+          - intros X. apply Hnd. eapply doomed_dep; eauto. }
+        eapply complete_local; eauto. intros X. apply Hnd. apply doomed_raises; auto. }
+      intros t Hin. split.
+      - intros Hr Hd. apply Hr. apply doomed_unstored; auto. apply (I_sound _ I).
+      - apply (G (S (rank t))); auto.
+    Qed.
+
+    Theorem complete_run : forall tr (s0 s : st V), Restart s0 -> forallb okev tr = true ->
+      run C s0 tr = Some s -> quiescent s -> (exists w c, F w = true /\ pcw s w = PDone c) ->
+      forall t, In t (c_tasks C) -> (results s t <> None <-> ~ doomed (results s) t).
+    Proof.
+      intros tr s0 s R Q H Hq Hw. assert (K0 := Restart_InvC _ R). destruct R as [I0 _].
+      apply complete; auto.
+      - eapply Inv_run; eauto.
+      - eapply InvC_run; eauto.
+    Qed.
+  End Complete.
+
+  Lemma Restart_init : forall r0, Sound r0 -> Restart (fun _ => true) 1 (init r0).
+  Proof.
+    intros r0 Hs. split; [apply Inv_init; auto|]. simpl. repeat split; auto; try discriminate.
+  Qed.
+
 End Facts.
